@@ -269,3 +269,125 @@ sys.exit(1 if "AddressSanitizer" in r.stderr else 0)
 
 
 import sys
+
+
+# ------------------------------------------------------------------ best-two bookkeeping as one inductive step
+
+STORE = "_ZL14store_energiesPiPfiif"
+
+_STORE_REPLAY = r'''
+import sys, ctypes, tempfile, subprocess, numpy as np, os
+REPO = os.environ.get("VT_REPO", "/repo"); G = REPO + "/mdtraj/geometry"
+d = tempfile.mkdtemp(); so = d + "/k.so"
+subprocess.check_call(["g++", "-O2", "-shared", "-fPIC", "-D__NO_INTRINSICS", "-I" + G + "/include", "-I" + G + "/src/kernels", G + "/src/geometry.cpp", "-o", so])
+lib = ctypes.CDLL(so)
+# donor = residue 1 (its hydrogen is built from residue 0's C=O and points along +x); acceptors = residues 2.. : C=O groups on the +x side
+# at graded N...O distances, so that their energies come out e.g. strong, weak, medium in residue order
+def frame(order):
+    n_res = 2 + len(order); xyz = np.zeros((n_res * 4, 3), dtype=np.float32)
+    xyz[0] = [-0.40, 0.10, 0.0]; xyz[1] = [-0.30, 0.05, 0.05]; xyz[2] = [-0.133, 0.0, 0.0]; xyz[3] = [-0.256, 0.0, 0.0]      # residue 0: C - O = +x
+    xyz[4] = [0, 0, 0]; xyz[5] = [-0.05, 0.12, 0.05]; xyz[6] = [-0.10, -0.10, 0.12]; xyz[7] = [-0.18, -0.16, 0.2]            # residue 1: the donor
+    for k, dist in enumerate(order):
+        ang = 0.35 * (k - 1); base = np.array([np.cos(ang), np.sin(ang), 0.0])
+        r = 4 * (k + 2)
+        xyz[r + 3] = base * dist; xyz[r + 2] = base * (dist + 0.123); xyz[r + 1] = base * (dist + 0.2) + [0, 0, 0.1]; xyz[r] = base * (dist + 0.3) + [0, 0, 0.2]
+    return n_res, xyz
+bad = 0
+for order in ([0.28, 0.36, 0.31], [0.31, 0.36, 0.28], [0.28, 0.36, 0.33, 0.30], [0.36, 0.33, 0.30, 0.28]):
+    n_res, xyz = frame(order)
+    nco = np.array([v for r in range(n_res) for v in (4 * r, 4 * r + 2, 4 * r + 3)], dtype=np.int32); ca = np.array([4 * r + 1 for r in range(n_res)], dtype=np.int32)
+    pro = np.zeros(n_res, dtype=np.int32); hb = -np.ones(2 * n_res, dtype=np.int32); he = np.full(2 * n_res, np.nan, dtype=np.float32)
+    fp = lambda a: a.ctypes.data_as(ctypes.c_void_p)
+    lib.kabsch_sander(fp(xyz), fp(nco), fp(ca), fp(pro), 1, 4 * n_res, n_res, fp(hb), fp(he))
+    # independent evaluation of all donor/acceptor energies with the documented formula (H := N for residue 0)
+    def E(dn, ac):
+        N = xyz[4 * dn].astype(float); H = N if dn == 0 else None
+        if H is None:
+            pc, po = xyz[4 * (dn - 1) + 2].astype(float), xyz[4 * (dn - 1) + 3].astype(float); v = pc - po; H = N + 0.1 * v / np.linalg.norm(v)
+        C = xyz[4 * ac + 2].astype(float); O = xyz[4 * ac + 3].astype(float)
+        r = lambda a, b: np.linalg.norm(a - b)
+        return 2.7888 * (1 / r(N, O) + 1 / r(H, C) - 1 / r(H, O) - 1 / r(N, C))
+    for dn in range(n_res):
+        cand = sorted((E(dn, ac), ac) for ac in range(n_res) if ac != dn and ac != dn - 1 and np.linalg.norm(xyz[4 * dn + 1] - xyz[4 * ac + 1]) < 0.9 and E(dn, ac) < -0.5)
+        want = [ac for _, ac in cand[:2]]
+        got = [int(x) for x in hb[2 * dn:2 * dn + 2] if x != -1]
+        if sorted(want) != sorted(got):
+            print("order", order, "donor", dn, "kernel kept", got, "best two are", want, "energies", [(round(e, 3), a) for e, a in cand]); bad += 1
+print("donors with a wrong best-two set:", bad)
+sys.exit(1 if bad else 0)
+'''
+
+
+def store_step(state: str = "two"):
+    """store_energies from an arbitrary valid slot state (empty / one / two entries, sorted) and an arbitrary new energy: afterwards the
+    slots hold the two lowest of {old entries, new entry}, lowest first, each energy with its own acceptor"""
+    t0 = time.time()
+    mod, _ = c05.module("geometry.cpp", ("-fno-inline",))
+    if STORE not in mod.funcs:
+        return {"status": "inconclusive", "detail": "store_energies is not a separate function in the -fno-inline IR"}
+    E0, E1, EN = Poly.var("e0"), Poly.var("e1"), Poly.var("e")
+    A0, A1, AN = 10, 11, 12
+    init = {"empty": ([-1, -1], [NAN, NAN]), "one": ([A0, -1], [E0, NAN]), "two": ([A0, A1], [E0, E1])}[state]
+
+    def setup(I):
+        hb = I.new_ints([7, 7] + init[0])          # donor 1: slots 2, 3 (donor 0's slots must stay untouched)
+        he = I.new_floats([P(F(5)), P(F(6))] + init[1])
+        return [hb, he, 1, AN, EN], {"hb": hb, "he": he}
+    problems, paths, nq, ssec = [], 0, 0, 0.0
+    cex_model = None
+    for I, ctx, _ in L.explore(mod, STORE, setup, timeout_ms=30000, max_paths=64):
+        paths += 1
+        hb = I.get_ints(ctx["hb"], 4)
+        he = I.get_floats(ctx["he"], 4)
+        if hb[:2] != [7, 7] or L.conc(he[0]) != 5 or L.conc(he[1]) != 6:
+            problems.append("another donor's slots were written")
+        old = [(a, e) for a, e in zip(init[0], init[1]) if a != -1]
+        entries = old + [(AN, EN)]
+        pre = [I.emit(E0) <= I.emit(E1)] if state == "two" else []
+        base = I.side + I.path + pre
+        after = [(hb[2 + k], he[2 + k]) for k in range(2)]
+        filled = [(a, e) for a, e in after if a != -1]
+        if any((a == -1) != (e is NAN) for a, e in after):
+            problems.append("slot with an acceptor but no energy (or the reverse)")
+            continue
+        if len(filled) != min(2, len(entries)):
+            problems.append(f"{len(filled)} slots filled from {len(entries)} candidates")
+            continue
+        eps = rv(F(1, 10**6))
+        # each kept (acceptor, energy) is one of the candidates with ITS energy
+        for a, e in filled:
+            m = [x for x in entries if x[0] == a]
+            if len(m) != 1 or P(m[0][1]).key() != P(e).key():
+                problems.append(f"slot holds acceptor {a} with an energy that is not that acceptor's")
+        if len(filled) == 2:
+            q = [I.emit(filled[0][1]) > I.emit(filled[1][1]) + eps]                                   # lowest first
+            dropped = [x for x in entries if x[0] not in [a for a, _ in filled]]
+            q += [I.emit(x[1]) < I.emit(f[1]) - eps for x in dropped for f in filled]                 # nothing dropped beats something kept
+            sol = z3.Solver()
+            sol.set("timeout", 30000)
+            sol.add(*base)
+            sol.add(z3.Or(q))
+            t = time.time()
+            r = sol.check()
+            ssec += time.time() - t
+            nq += 1
+            if r == z3.sat:
+                m = sol.model()
+                problems.append("kept entries are not the two lowest: " + ", ".join(f"{n}={c05.L_model_float(m, I.emit(v))}" for n, v in (("e0", E0), ("e1", E1), ("e", EN))) + f" -> slots {[a for a, _ in after]}")
+            elif r != z3.unsat:
+                problems.append("solver unknown")
+    res = {"queries": nq + paths, "solver_s": round(ssec, 2), "paths": paths, "wall_s": round(time.time() - t0, 2), "ir_instructions": mod.ninsns}
+    if problems:
+        rep, script = _store_replay()
+        return {**res, "status": "cex", "detail": "; ".join(problems[:3]), "cex": {"goal": "best_two", "key": "best_two", "inputs": {"problems": problems[:4]}, "reproduced": rep, "replay_script": script}}
+    return {**res, "status": "holds", "twin_ok": paths >= 1}
+
+
+def _store_replay():
+    import os, subprocess, sys, tempfile
+    from vtlib.core import REPO
+    with tempfile.NamedTemporaryFile("w", suffix=".py", delete=False) as fh:
+        fh.write(_STORE_REPLAY)
+    r = subprocess.run([sys.executable, fh.name], capture_output=True, text=True, env=dict(os.environ, VT_REPO=str(REPO)))
+    os.unlink(fh.name)
+    return r.returncode == 1, _STORE_REPLAY + "\n# " + (r.stdout + r.stderr)[-500:].replace("\n", "\n# ")
